@@ -212,7 +212,7 @@ def run(ctx):
         for ovf in ("true", "false"):
             for op, args in cases:
                 a = ";".join(op_coq(x) for x in args)
-                if any(c07.order_sensitive(x) for x in args):
+                if c07.case_order_sensitive(args):
                     exprs.append(f"all_orders (fun oo => run_native oo {ovf} fo defs {op} [{a}])")
                 else:
                     exprs.append(f"run_native ord_id {ovf} fo defs {op} [{a}]")
